@@ -197,10 +197,14 @@ def detach (K : Kinds) (h : Heap) (x : Id) : Heap × Outcome :=
     let k := l.idxOf x
     if k < l.length then pop K h q (k : Int) else (h, .typeError)
 
-/-- `replace_with(node)` for call-like parents without *named* arguments: then
-`argument_names` is `[None] * (len(children) - 1)` and `argument_names[position - 1]` is an
-`IndexError` exactly for the routine reference of a call without arguments. -/
-def replaceWith (K : Kinds) (h : Heap) (x y : Id) : Heap × Outcome :=
+/-- `replace_with(node, keep_name_in_context)` (both arguments of the right type, see the
+`…NonNode`/`…BadFlag` operations for the others).  Call-like parents are modelled without *named*
+arguments: then `argument_names` is `[None] * (len(children) - 1)`, and
+`argument_names[position - 1]` is an `IndexError` exactly for the routine reference of a call
+without arguments.  With `keep_name_in_context=False` that lookup is skipped.  `position` is
+`None` for a node that only has a constructor parent: `None - 1`, resp. `children[None] = node`,
+is a `TypeError`. -/
+def replaceWith (K : Kinds) (h : Heap) (x y : Id) (keep : Bool) : Heap × Outcome :=
   match h.parent x with
   | none => (h, .generationError)
   | some q =>
@@ -209,8 +213,15 @@ def replaceWith (K : Kinds) (h : Heap) (x y : Id) : Heap × Outcome :=
       let l := h.children q
       let k := l.idxOf x
       if !(k < l.length) then (h, .typeError)          -- `position` is None
-      else if K.argNames (h.kind q) && k == 0 && l.length == 1 then (h, .indexError)
+      else if keep && K.argNames (h.kind q) && k == 0 && l.length == 1 then (h, .indexError)
       else setitem K h q (k : Int) y
+
+/-- `Call.append_named_arg(None, arg)`: `self.children.append(arg)` (name bookkeeping aside) -/
+def appendNamedArg (K : Kinds) (h : Heap) (p x : Id) : Heap × Outcome := append K h p x
+
+/-- `Call.insert_named_arg(None, arg, index)`: `self.children.insert(index + 1, arg)` -/
+def insertNamedArg (K : Kinds) (h : Heap) (p : Id) (i : Int) (x : Id) : Heap × Outcome :=
+  insert K h p (i + 1) x
 
 inductive Op where
   | append (p x : Id)
@@ -229,7 +240,15 @@ inductive Op where
   | setChildren (p : Id) (xs : List Id)
   | popAll (p : Id)
   | detach (x : Id)
-  | replaceWith (x y : Id)
+  | replaceWith (x y : Id) (keep : Bool)
+  | appendNamedArg (p x : Id)
+  | insertNamedArg (p : Id) (i : Int) (x : Id)
+  /- operations that the repaired code rejects by the type of an argument, before looking at the tree -/
+  | setslice (p : Id)               -- `p.children[i:j] = [...]`
+  | delslice (p : Id)               -- `del p.children[i:j]`, `p.children.pop(slice)`
+  | setChildrenNonList (p : Id)     -- `p.children = <not a list>`
+  | replaceWithNonNode (x : Id)     -- `x.replace_with(<not a Node>)`
+  | replaceWithBadFlag (x y : Id)   -- `x.replace_with(y, keep_name_in_context=<not a bool>)`
 
 def step (K : Kinds) (h : Heap) : Op → Heap × Outcome
   | .append p x => append K h p x
@@ -249,7 +268,23 @@ def step (K : Kinds) (h : Heap) : Op → Heap × Outcome
   | .setChildren p xs => setChildren K h p xs
   | .popAll p => popAll K p (h.children p).length h
   | .detach x => detach K h x
-  | .replaceWith x y => replaceWith K h x y
+  | .replaceWith x y keep => replaceWith K h x y keep
+  | .appendNamedArg p x => appendNamedArg K h p x
+  | .insertNamedArg p i x => insertNamedArg K h p i x
+  | .setslice _ => (h, .typeError)
+  | .delslice _ => (h, .typeError)
+  | .setChildrenNonList _ => (h, .typeError)
+  | .replaceWithNonNode _ => (h, .typeError)
+  | .replaceWithBadFlag _ _ => (h, .typeError)
+
+/-- the node ids an operation mentions -/
+def Op.ids : Op → List Id
+  | .append p x | .remove p x | .appendNamedArg p x | .replaceWithBadFlag p x => [p, x]
+  | .insert p _ x | .setitem p _ x | .insertNamedArg p _ x | .addchild p x _ => [p, x]
+  | .extend p xs | .iadd p xs | .setChildren p xs => p :: xs
+  | .delitem p _ | .pop p _ | .reverse p | .clear p | .sort p | .imul p | .popAll p | .detach p => [p]
+  | .setslice p | .delslice p | .setChildrenNonList p | .replaceWithNonNode p => [p]
+  | .replaceWith x y _ => [x, y]
 
 /-! ## concrete heaps -/
 
@@ -283,5 +318,232 @@ def run (K : Kinds) (h : Heap) (ops : List Op) : Heap := ops.foldl (fun h o => (
 def outcomes (K : Kinds) : Heap → List Op → List Outcome
   | _, [] => []
   | h, o :: os => (step K h o).2 :: outcomes K (step K h o).1 os
+
+/-! ## fresh nodes (what the constructors produce) -/
+
+/-- `specs[i] = (kind, constructor parent)`: node `i` as `Cls()` or `Cls(parent=p)` leaves it —
+no children, not listed anywhere. -/
+def Heap.fresh (specs : List (Kind × Option Id)) : Heap :=
+  Heap.ofList (specs.map fun s => ⟨s.1, s.2, s.2.isSome, []⟩)
+
+/-- a constructor parent exists before the node that names it -/
+def freshOk (specs : List (Kind × Option Id)) : Bool :=
+  (List.range specs.length).all fun i =>
+    match specs[i]? with
+    | some (_, some p) => decide (p < i)
+    | _ => true
+
+/-! ## list objects and handles
+
+`node.children` returns the node's own list object, and (since the repair of the setter) a node
+keeps that one object for its whole life: `children = [...]` empties and refills it.  So a handle
+`lst = node.children`, taken at any time, *is* the node's children list, and an operation through
+it is the operation on the node. -/
+
+/-- the ChildrenList methods, as invoked on a list object -/
+inductive ListOp where
+  | append (x : Id) | insert (i : Int) (x : Id) | extend (xs : List Id) | iadd (xs : List Id)
+  | setitem (i : Int) (x : Id) | delitem (i : Int) | pop (i : Int) | remove (x : Id)
+  | reverse | clear | sort | imul | setslice | delslice
+
+/-- the same method on the children list of node `p` -/
+def ListOp.toOp (p : Id) : ListOp → Op
+  | .append x => .append p x | .insert i x => .insert p i x | .extend xs => .extend p xs
+  | .iadd xs => .extend p xs       -- `lst += xs` on a bare handle is `__iadd__` = `extend`
+  | .setitem i x => .setitem p i x | .delitem i => .delitem p i | .pop i => .pop p i
+  | .remove x => .remove p x | .reverse => .reverse p | .clear => .clear p | .sort => .sort p
+  | .imul => .imul p | .setslice => .setslice p | .delslice => .delslice p
+
+/-- `handles[k]` = the node whose `children` the k-th handle was taken from -/
+structure HState where
+  heap : Heap
+  handles : List Id
+
+inductive HOp where
+  | cur (op : Op)                      -- an operation on a node
+  | take (p : Id)                      -- `lst_k = p.children`
+  | via (k : Nat) (lop : ListOp)       -- `lst_k.<method>(…)`
+
+def hstep (K : Kinds) (s : HState) : HOp → HState × Outcome
+  | .cur op => let r := step K s.heap op; (⟨r.1, s.handles⟩, r.2)
+  | .take p => (⟨s.heap, s.handles ++ [p]⟩, .ok)
+  | .via k lop =>
+    match s.handles[k]? with
+    | none => (s, .ok)                 -- no such handle: nothing happens
+    | some p => let r := step K s.heap (lop.toOp p); (⟨r.1, s.handles⟩, r.2)
+
+def hrun (K : Kinds) (s : HState) (ops : List HOp) : HState := ops.foldl (fun s o => (hstep K s o).1) s
+
+/-! ### the pinned setter (before fix 6dd9337), kept for the counterexample
+
+It installed a *new* ChildrenList; the old object — emptied by `pop_all_children` — stayed
+reachable through earlier handles and still validated and linked on behalf of its node, with its
+own item list. -/
+
+/-- a list object that is no longer the `_children` of `owner` -/
+structure Stale where
+  owner : Id
+  items : List Id
+
+/-- a method on a stale list object: it sees its own items, validates with and links to `owner`;
+the owner's real children list is untouched. -/
+def staleStepPinned (K : Kinds) (h : Heap) (st : Stale) (lop : ListOp) : Heap × Stale × Outcome :=
+  let r := step K (h.setKids st.owner st.items) (lop.toOp st.owner)
+  (r.1.setKids st.owner (h.children st.owner), { st with items := r.1.children st.owner }, r.2)
+
+structure HStatePinned where
+  heap : Heap
+  /-- live handles: `(owner)`; stale ones: the detached list objects -/
+  stale : List Stale
+
+inductive HOpPinned where
+  | cur (op : Op)
+  | viaStale (k : Nat) (lop : ListOp)   -- through the k-th list object replaced by a setter
+
+def hstepPinned (K : Kinds) (s : HStatePinned) : HOpPinned → HStatePinned × Outcome
+  | .cur op =>
+    let r := step K s.heap op
+    let stale' := match op, r.2 with
+      | .setChildren p _, .ok => s.stale ++ [⟨p, []⟩]   -- `self._children = ChildrenList(...)`
+      | _, _ => s.stale
+    (⟨r.1, stale'⟩, r.2)
+  | .viaStale k lop =>
+    match s.stale[k]? with
+    | none => (s, .ok)
+    | some st =>
+      let r := staleStepPinned K s.heap st lop
+      (⟨r.1, s.stale.set k r.2.1⟩, r.2.2)
+
+def hrunPinned (K : Kinds) (s : HStatePinned) (ops : List HOpPinned) : HStatePinned :=
+  ops.foldl (fun s o => (hstepPinned K s o).1) s
+
+/-! ## named arguments of Call nodes (`Call._argument_names`)
+
+`_argument_names` is a list of `(id(arg), name)` kept *lazily* consistent with the children:
+`_reconcile` (run by the `argument_names` property) rebuilds it from the current arguments
+(`children[1:]`), keeping the first entry with the same `id` and `None` otherwise.  Names are
+compared case-insensitively, except in `replace_named_arg`, which compares `name.lower()` with
+the *un-lowered* name it was given. -/
+
+structure ArgName where
+  /-- the name up to case (`name.lower()`) -/
+  id : Nat
+  /-- `name.lower() == name` -/
+  lower : Bool
+  deriving DecidableEq, Repr
+
+abbrev Entry := Id × Option ArgName
+
+structure CState where
+  heap : Heap
+  /-- `_argument_names` of every call-like node -/
+  names : Id → List Entry
+
+def CState.setNames (s : CState) (q : Id) (l : List Entry) : CState :=
+  { s with names := fun i => if i = q then l else s.names i }
+
+/-- `_reconcile` -/
+def reconcile (args : List Id) (entries : List Entry) : List Entry :=
+  args.map fun c => match entries.find? (fun e => e.1 == c) with
+    | some e => e
+    | none => (c, none)
+
+/-- `self.argument_names` (its side effect on `_argument_names`) -/
+def reconciled (s : CState) (q : Id) : List Entry := reconcile ((s.heap.children q).drop 1) (s.names q)
+
+/-- Python indexing `l[i]`; `none` = `IndexError` -/
+def pyGet {α : Type} (l : List α) (i : Int) : Option α :=
+  match positiveIndex l.length i with
+  | none => none
+  | some k => l[k]?
+
+/-- `replace_named_arg(existing_name, arg)`: searches the RAW `_argument_names` for an entry whose
+`name.lower()` equals `existing_name` as given; `ValueError` if none. -/
+def replaceNamedArg (K : Kinds) (s : CState) (q : Id) (nm : ArgName) (y : Id) : CState × Outcome :=
+  let es := s.names q
+  match es.findIdx? (fun e => match e.2 with
+      | some m => m.id == nm.id && nm.lower
+      | none => false) with
+  | none => (s, .valueError)
+  | some j =>
+    let r := setitem K s.heap q ((j : Int) + 1) y
+    match r.2 with
+    | .ok => ((CState.mk r.1 s.names).setNames q (es.set j (y, some nm)), .ok)
+    | o => ({ s with heap := r.1 }, o)
+
+/-- `replace_with` with the named-argument logic of call-like parents -/
+def replaceWithC (K : Kinds) (s : CState) (x y : Id) (keep : Bool) : CState × Outcome :=
+  let h := s.heap
+  match h.parent x with
+  | none => (s, .generationError)
+  | some q =>
+    if (h.parent y).isSome then (s, .generationError)
+    else
+      let l := h.children q
+      let k := l.idxOf x
+      if keep && K.argNames (h.kind q) then
+        -- `self.parent.argument_names[self.position - 1]`: the property is evaluated first
+        let es := reconciled s q
+        let s1 := s.setNames q es
+        if !(k < l.length) then (s1, .typeError)
+        else match pyGet es ((k : Int) - 1) with
+          | none => (s1, .indexError)
+          | some (_, none) => let r := setitem K h q (k : Int) y; ({ s1 with heap := r.1 }, r.2)
+          | some (_, some nm) => replaceNamedArg K s1 q nm y
+      else if !(k < l.length) then (s, .typeError)
+      else let r := setitem K h q (k : Int) y; ({ s with heap := r.1 }, r.2)
+
+/-- does some reconciled entry carry this name (case-insensitively)? -/
+def nameUsed (es : List Entry) (nm : ArgName) : Bool :=
+  es.any fun e => match e.2 with
+    | some m => m.id == nm.id
+    | none => false
+
+/-- `append_named_arg(name, arg)`: the entry is appended *before* `children.append` may refuse -/
+def appendNamedArgC (K : Kinds) (s : CState) (p : Id) (nm : Option ArgName) (x : Id) : CState × Outcome :=
+  match nm with
+  | none =>
+    let r := append K s.heap p x
+    ((CState.mk r.1 s.names).setNames p (s.names p ++ [(x, none)]), r.2)
+  | some n =>
+    let es := reconciled s p
+    if nameUsed es n then (s.setNames p es, .valueError)
+    else
+      let r := append K s.heap p x
+      ((CState.mk r.1 s.names).setNames p (es ++ [(x, some n)]), r.2)
+
+/-- `insert_named_arg(name, arg, index)`: `_argument_names.insert(index, …)` then
+`children.insert(index + 1, arg)` -/
+def insertNamedArgC (K : Kinds) (s : CState) (p : Id) (nm : Option ArgName) (i : Int) (x : Id) :
+    CState × Outcome :=
+  match nm with
+  | none =>
+    let es := s.names p
+    let r := insert K s.heap p (i + 1) x
+    ((CState.mk r.1 s.names).setNames p (es.insertIdx (clampIndex es.length i) (x, none)), r.2)
+  | some n =>
+    let es := reconciled s p
+    if nameUsed es n then (s.setNames p es, .valueError)
+    else
+      let r := insert K s.heap p (i + 1) x
+      ((CState.mk r.1 s.names).setNames p (es.insertIdx (clampIndex es.length i) (x, some n)), r.2)
+
+inductive COp where
+  | plain (op : Op)                      -- any operation that does not look at argument names
+  | replaceWith (x y : Id) (keep : Bool)
+  | appendNamed (p : Id) (nm : Option ArgName) (x : Id)
+  | insertNamed (p : Id) (nm : Option ArgName) (i : Int) (x : Id)
+  | replaceNamed (p : Id) (nm : ArgName) (y : Id)
+  | argumentNames (p : Id)               -- reading the property reconciles
+
+def cstep (K : Kinds) (s : CState) : COp → CState × Outcome
+  | .plain op => let r := step K s.heap op; ({ s with heap := r.1 }, r.2)
+  | .replaceWith x y keep => replaceWithC K s x y keep
+  | .appendNamed p nm x => appendNamedArgC K s p nm x
+  | .insertNamed p nm i x => insertNamedArgC K s p nm i x
+  | .replaceNamed p nm y => replaceNamedArg K s p nm y
+  | .argumentNames p => (s.setNames p (reconciled s p), .ok)
+
+def crun (K : Kinds) (s : CState) (ops : List COp) : CState := ops.foldl (fun s o => (cstep K s o).1) s
 
 end C14
